@@ -1,5 +1,6 @@
 (* C14/Gather.v -- fixed-form continuation gathering (the forward fixed branch of FortranFile.get_code_line followed by the join
-   of the parse loop) and its agreement with the free-form gathering of C13/Cont.v.  Model and proofs. *)
+   of the parse loop and its cut at the trailing comment) and its agreement with the free-form gathering of C13/Cont.v, for lines
+   without character literals.  Model and proofs. *)
 From Coq Require Import Lia.
 From FV Require Import Base.Str C13.Cont C14.Model.
 
@@ -10,29 +11,122 @@ Definition fixed_cont (l : str) : bool :=
   | _ => false
   end.
 
+Definition blanks (n : nat) : str := repeat 32%N n.
 Definition blank_line (l : str) : bool := forallb py_space l.
+Definition no_charb (c : char) (s : str) : bool := forallb (fun x => negb (N.eqb x c)) s.
 
+(* lines that may stand between continuation lines: blank, flagged in column 1, or a `!` comment after blanks *)
+Definition ffiller (l : str) : bool := blank_line l || fixed_comment l || is_comment_line l.
+
+(* FortranFile.strip_comment on a fixed-form line (no character literals, no OpenMP sentinel): a comment line vanishes,
+   otherwise the line is cut at the first `!` that is not in column 6 *)
+Definition cut_comment (l : str) : str :=
+  if fixed_comment l then []
+  else match find_char BANG l with
+       | None => l
+       | Some i =>
+         if i =? 5 then match find_char BANG (skipn 6 l) with Some j => firstn (6 + j) l | None => l end
+         else firstn i l
+       end.
+
+(* the line that is continued loses its trailing comment: curr_line / post_lines[last] = self.strip_comment(...) *)
+Definition cut_head (acc : list str) : list str := match acc with p :: a => cut_comment p :: a | [] => [] end.
+
+(* [acc]: the current line and the continuation lines gathered so far, reversed *)
 Fixpoint fgather (rest : list str) (acc skipped : list str) : list str :=
   match rest with
   | [] => rev acc
   | l :: r =>
-    if fixed_cont l then fgather r ((repeat 32%N 6 ++ skipn 6 l) :: skipped ++ acc) []
-    else if blank_line l || fixed_comment l then fgather r acc ([] :: skipped)
+    if fixed_cont l then fgather r ((blanks 6 ++ skipn 6 l) :: skipped ++ cut_head acc) []
+    else if ffiller l then fgather r acc ([] :: skipped)
     else rev acc
   end.
 
-Definition joined_fixed (cur : str) (rest : list str) : str := concat (cur :: fgather rest [] []).
+Definition joined_fixed (cur : str) (rest : list str) : str := concat (fgather rest [cur] []).
 
-(* a continued statement printed in fixed form: pieces with continuation marks, comment/blank lines after each piece *)
-Record fpiece := FP { fmark : char; fbody : str; ffill : list str }.
-Definition ffiller_ok (l : str) : bool := (blank_line l || fixed_comment l) && negb (fixed_cont l).
-Definition wf_fpiece (p : fpiece) : bool := negb (py_space (fmark p)) && forallb ffiller_ok (ffill p).
+(* the parse loop cuts the joined line at its first `!` (the trailing comment of the last line) *)
+Definition cut_bang (s : str) : str := match find_char BANG s with Some i => firstn i s | None => s end.
+Definition statement_fixed (cur : str) (rest : list str) : str := cut_bang (joined_fixed cur rest).
 
-Definition render_cont (p : fpiece) : list str := (repeat 32%N 5 ++ [fmark p] ++ fbody p) :: ffill p.
+(* a continued statement printed in fixed form: pieces with continuation marks, each possibly followed by a trailing comment,
+   comment/blank lines after each piece *)
+Record fpiece := FP { fmark : char; fbody : str; ftail : str; ffill : list str }.
+Definition tail_ok (t : str) : bool := match t with [] => true | c :: _ => N.eqb c BANG end.
+Definition ffiller_ok (l : str) : bool := ffiller l && negb (fixed_cont l).
+Definition wf_fpiece (p : fpiece) : bool :=
+  negb (py_space (fmark p)) && no_charb BANG (fbody p) && tail_ok (ftail p) && forallb ffiller_ok (ffill p).
+
+Definition render_cont (p : fpiece) : list str := (blanks 5 ++ [fmark p] ++ fbody p ++ ftail p) :: ffill p.
 Definition render_conts (ps : list fpiece) : list str := flat_map render_cont ps.
 
-Lemma fixed_cont_line m b : py_space m = false -> fixed_cont (repeat 32%N 5 ++ m :: b) = true.
+(* the text of the gathered continuation lines: every body behind six blanks, the last one with its trailing comment *)
+Fixpoint ptext (ps : list fpiece) : str :=
+  match ps with
+  | [] => []
+  | [p] => blanks 6 ++ fbody p ++ ftail p
+  | p :: r => blanks 6 ++ fbody p ++ ptext r
+  end.
+
+(* ------------------------------------------------------------------ lemmas *)
+Lemma no_charb_find c s : no_charb c s = true -> find_char c s = None.
+Proof. apply find_char_none. Qed.
+
+Lemma fixed_cont_line m b : py_space m = false -> fixed_cont (blanks 5 ++ m :: b) = true.
 Proof. intro H. cbn. now rewrite H. Qed.
+
+Lemma find_bang_blanks n : find_char BANG (blanks n) = None.
+Proof. unfold blanks. apply find_char_repeat. discriminate. Qed.
+
+Lemma squeeze_blanks n : squeeze (blanks n) = [].
+Proof. exact (squeeze_repeat n). Qed.
+
+Lemma blanks_length n : length (blanks n) = n.
+Proof. apply repeat_length. Qed.
+
+Lemma find_bang_pref n b : find_char BANG b = None -> find_char BANG (blanks n ++ b) = None.
+Proof. intro H. unfold blanks. induction n as [|n IH]; [exact H|]. cbn. now rewrite IH. Qed.
+
+Lemma firstn_pref (a r : str) k : k = length a -> firstn k (a ++ r) = a.
+Proof. intros ->. apply firstn_app_exact. Qed.
+
+Lemma find_char_here c t : find_char c (c :: t) = Some 0.
+Proof. cbn. now rewrite N.eqb_refl. Qed.
+
+(* a line made of blanks, a text without `!`, and a trailing comment (or nothing) *)
+Lemma find_bang_tail a t : find_char BANG a = None -> tail_ok t = true ->
+  find_char BANG (a ++ t) = match t with [] => None | _ => Some (length a) end.
+Proof.
+  intros Ha Ht. rewrite (find_char_app_none BANG a t Ha). destruct t as [|c t]; [reflexivity|].
+  cbn in Ht. apply N.eqb_eq in Ht. subst. rewrite find_char_here. cbn. f_equal. lia.
+Qed.
+
+Lemma cut_bang_tail a t : find_char BANG a = None -> tail_ok t = true -> cut_bang (a ++ t) = a.
+Proof.
+  intros Ha Ht. unfold cut_bang. rewrite (find_bang_tail a t Ha Ht). destruct t as [|c t]; [now rewrite app_nil_r|apply firstn_app_exact].
+Qed.
+
+Lemma cut_bang_app a s : find_char BANG a = None -> cut_bang (a ++ s) = a ++ cut_bang s.
+Proof.
+  intro Ha. unfold cut_bang. rewrite (find_char_app_none BANG a s Ha). destruct (find_char BANG s) as [i|]; cbn; [|reflexivity].
+  rewrite firstn_app. replace (length a + i - length a) with i by lia. rewrite firstn_all2 by lia. reflexivity.
+Qed.
+
+(* the cut of a gathered line (six blanks, body, trailing comment) and of a first line that starts in column 7 or later *)
+Lemma cut_comment_line n b t : 6 <= n -> find_char BANG b = None -> tail_ok t = true ->
+  cut_comment (blanks n ++ b ++ t) = blanks n ++ b.
+Proof.
+  intros Hn Hb Ht. unfold cut_comment.
+  assert (Hfc : fixed_comment (blanks n ++ b ++ t) = false).
+  { destruct n as [|n]; [lia|]. reflexivity. }
+  assert (Ha : find_char BANG (blanks n ++ b) = None) by now apply find_bang_pref.
+  assert (E : find_char BANG (blanks n ++ b ++ t) = match t with [] => None | _ => Some (length (blanks n ++ b)) end).
+  { rewrite app_assoc. now apply find_bang_tail. }
+  rewrite Hfc, E. destruct t as [|c t]; [now rewrite app_nil_r|].
+  assert (E5 : (length (blanks n ++ b) =? 5) = false).
+  { apply Nat.eqb_neq. rewrite app_length, blanks_length. lia. }
+  rewrite E5.
+  transitivity (firstn (length (blanks n ++ b)) ((blanks n ++ b) ++ c :: t)); [f_equal; apply app_assoc|apply firstn_app_exact].
+Qed.
 
 Lemma concat_rev_nils (n : nat) (l : list str) : concat (rev (repeat [] n ++ l)) = concat (rev l).
 Proof. induction n as [|n IH]; [reflexivity|]. cbn [repeat app rev]. rewrite concat_app, IH. cbn. apply app_nil_r. Qed.
@@ -51,57 +145,84 @@ Definition all_nil (l : list str) : Prop := Forall (fun x => x = []) l.
 
 Lemma concat_all_nil l : all_nil l -> concat l = [].
 Proof. induction 1 as [|x r Hx _ IH]; [reflexivity|]. subst. exact IH. Qed.
-
-Lemma all_nil_app a b : all_nil a -> all_nil b -> all_nil (a ++ b).
-Proof. intros. now apply Forall_app. Qed.
 Lemma all_nil_repeat n : all_nil (repeat [] n).
 Proof. induction n; constructor; auto. Qed.
 
-(* the gathered text: every continuation body, in order, each behind six blanks *)
+Definition stop_ok (stop : list str) : Prop :=
+  match stop with l :: _ => fixed_cont l = false /\ ffiller l = false | [] => True end.
+
+(* the gathered text: the lines gathered before (the last of them cut at its comment), then every continuation body in order *)
 Theorem fgather_conts : forall ps stop acc skipped,
-  Forall (fun p => wf_fpiece p = true) ps -> all_nil skipped ->
-  (match stop with l :: _ => fixed_cont l = false /\ blank_line l = false /\ fixed_comment l = false | [] => True end) ->
-  squeeze (concat (fgather (render_conts ps ++ stop) acc skipped)) = squeeze (concat (rev acc)) ++ squeeze (concat (map fbody ps)).
+  Forall (fun p => wf_fpiece p = true) ps -> all_nil skipped -> stop_ok stop ->
+  concat (fgather (render_conts ps ++ stop) acc skipped) =
+  match ps with [] => concat (rev acc) | _ => concat (rev (cut_head acc)) ++ ptext ps end.
 Proof.
   induction ps as [|p ps IH]; intros stop acc skipped Hwf Hsk Hstop.
-  - cbn [render_conts flat_map app map concat]. rewrite app_nil_r.
-    destruct stop as [|l r]; [reflexivity|]. destruct Hstop as [H1 [H2 H3]]. cbn [fgather]. rewrite H1, H2, H3. reflexivity.
-  - inversion Hwf as [|? ? Hp Hrest]; subst. unfold wf_fpiece in Hp. apply andb_true_iff in Hp as [Hm Hf]. apply negb_true_iff in Hm.
+  - cbn [render_conts flat_map app]. destruct stop as [|l r]; [reflexivity|]. destruct Hstop as [H1 H2]. cbn [fgather]. rewrite H1, H2. reflexivity.
+  - inversion Hwf as [|? ? Hp Hrest]; subst. unfold wf_fpiece in Hp.
+    apply andb_true_iff in Hp as [Hp Hf]. apply andb_true_iff in Hp as [Hp Ht]. apply andb_true_iff in Hp as [Hm Hb]. apply negb_true_iff in Hm.
     cbn [render_conts flat_map]. unfold render_cont at 1. cbn [app]. rewrite <- app_assoc.
-    cbn [fgather]. rewrite (fixed_cont_line (fmark p) (fbody p) Hm).
-    rewrite (fgather_fillers (ffill p) Hf). fold (render_conts ps).
-    rewrite IH; [|exact Hrest|rewrite app_nil_r; apply all_nil_repeat|exact Hstop].
-    cbn [rev]. rewrite !concat_app. cbn [concat]. rewrite app_nil_r.
+    cbn [fgather]. rewrite (fixed_cont_line (fmark p) (fbody p ++ ftail p) Hm).
+    rewrite (fgather_fillers (ffill p) Hf). fold (render_conts ps). rewrite app_nil_r.
     assert (Hs : concat (rev skipped) = []).
     { apply concat_all_nil. unfold all_nil in *. apply Forall_rev. exact Hsk. }
-    rewrite rev_app_distr, concat_app, Hs. cbn [app].
-    replace (skipn 6 (repeat 32%N 5 ++ fmark p :: fbody p)) with (fbody p) by reflexivity.
-    rewrite !squeeze_app. cbn [map concat]. rewrite squeeze_app.
-    replace (squeeze (repeat 32%N 6)) with (@nil char) by reflexivity. cbn [app]. rewrite <- !app_assoc. reflexivity.
+    rewrite (IH stop _ _ Hrest (all_nil_repeat _) Hstop).
+    destruct ps as [|q ps'].
+    + cbn [rev ptext]. rewrite !concat_app. cbn [concat]. rewrite rev_app_distr, concat_app, Hs. rewrite !app_nil_r. reflexivity.
+    + cbn [cut_head].
+      assert (Ec : cut_comment (blanks 6 ++ skipn 6 (blanks 5 ++ fmark p :: fbody p ++ ftail p)) = blanks 6 ++ fbody p).
+      { exact (cut_comment_line 6 (fbody p) (ftail p) (le_n 6) (no_charb_find _ _ Hb) Ht). }
+      match goal with |- context [cut_comment ?x] => replace (cut_comment x) with (blanks 6 ++ fbody p) by (symmetry; exact Ec) end.
+      cbn [rev]. rewrite !concat_app. cbn [concat]. rewrite rev_app_distr, concat_app, Hs. rewrite !app_nil_r.
+      change (ptext (p :: q :: ps')) with (blanks 6 ++ fbody p ++ ptext (q :: ps')).
+      rewrite <- !app_assoc. reflexivity.
 Qed.
 
-Theorem fixed_continuation_layout_irrelevant lead0 b0 ps stop :
-  Forall (fun p => wf_fpiece p = true) ps ->
-  (match stop with l :: _ => fixed_cont l = false /\ blank_line l = false /\ fixed_comment l = false | [] => True end) ->
-  squeeze (joined_fixed (repeat 32%N lead0 ++ b0) (render_conts ps ++ stop)) = squeeze (b0 ++ concat (map fbody ps)).
+(* the statement seen by the statement readers: the text before the comment of the first line, then the bodies *)
+Lemma cut_bang_ptext ps : Forall (fun p => wf_fpiece p = true) ps ->
+  squeeze (cut_bang (ptext ps)) = squeeze (concat (map fbody ps)).
 Proof.
-  intros Hwf Hstop. unfold joined_fixed. cbn [concat]. rewrite squeeze_app.
-  rewrite (fgather_conts ps stop [] [] Hwf ltac:(constructor) Hstop). cbn [rev concat squeeze filter app].
-  rewrite !squeeze_app, squeeze_repeat. reflexivity.
+  induction ps as [|p ps IH]; intro Hwf; [reflexivity|].
+  inversion Hwf as [|? ? Hp Hrest]; subst. unfold wf_fpiece in Hp.
+  apply andb_true_iff in Hp as [Hp _]. apply andb_true_iff in Hp as [Hp Ht]. apply andb_true_iff in Hp as [_ Hb].
+  assert (Ha : find_char BANG (blanks 6 ++ fbody p) = None).
+  { apply find_bang_pref. now apply no_charb_find. }
+  destruct ps as [|q ps'].
+  - cbn [ptext map concat]. rewrite app_nil_r, app_assoc, (cut_bang_tail _ _ Ha Ht), squeeze_app, squeeze_blanks. reflexivity.
+  - change (ptext (p :: q :: ps')) with (blanks 6 ++ fbody p ++ ptext (q :: ps')).
+    rewrite app_assoc, (cut_bang_app _ _ Ha), !squeeze_app, squeeze_blanks, (IH Hrest). cbn [map concat]. rewrite !squeeze_app. reflexivity.
+Qed.
+
+Theorem fixed_continuation_layout_irrelevant lead0 b0 t0 ps stop :
+  6 <= lead0 -> find_char BANG b0 = None -> tail_ok t0 = true ->
+  Forall (fun p => wf_fpiece p = true) ps -> stop_ok stop ->
+  squeeze (statement_fixed (blanks lead0 ++ b0 ++ t0) (render_conts ps ++ stop)) = squeeze (b0 ++ concat (map fbody ps)).
+Proof.
+  intros Hl Hb Ht Hwf Hstop. unfold statement_fixed, joined_fixed.
+  rewrite (fgather_conts ps stop _ [] Hwf ltac:(constructor) Hstop).
+  assert (Ha : find_char BANG (blanks lead0 ++ b0) = None).
+  { now apply find_bang_pref. }
+  destruct ps as [|p ps'].
+  - cbn [rev app concat map]. rewrite !app_nil_r, app_assoc, (cut_bang_tail _ _ Ha Ht), squeeze_app, squeeze_blanks. reflexivity.
+  - cbn [cut_head rev app concat]. rewrite app_nil_r, (cut_comment_line lead0 b0 t0 Hl Hb Ht).
+    rewrite (cut_bang_app _ _ Ha), !squeeze_app, squeeze_blanks, (cut_bang_ptext _ Hwf). reflexivity.
 Qed.
 
 (* the same statement, cut at the same places, printed in free form (C13/Cont.v) and in fixed form: the statement readers get the
    same text up to blanks *)
-Theorem fixed_free_same_statement p rest lead0 fps stop :
+Theorem fixed_free_same_statement p rest lead0 t0 fps stop :
   Forall (fun q => wf_piece q = true) (p :: rest) -> amp_lead p = false ->
-  Forall (fun q => wf_fpiece q = true) fps -> map fbody fps = map body rest ->
-  (match stop with l :: _ => fixed_cont l = false /\ blank_line l = false /\ fixed_comment l = false | [] => True end) ->
+  6 <= lead0 -> tail_ok t0 = true ->
+  Forall (fun q => wf_fpiece q = true) fps -> map fbody fps = map body rest -> stop_ok stop ->
   match render (p :: rest) with
-  | cur :: more => squeeze (joined cur more) = squeeze (joined_fixed (repeat 32%N lead0 ++ body p) (render_conts fps ++ stop))
+  | cur :: more => squeeze (joined cur more) = squeeze (statement_fixed (blanks lead0 ++ body p ++ t0) (render_conts fps ++ stop))
   | [] => False
   end.
 Proof.
-  intros Hwf Hamp Hf Hb Hstop. pose proof (continuation_layout_irrelevant p rest Hwf Hamp) as H.
+  intros Hwf Hamp Hl Ht Hf Hb Hstop. pose proof (continuation_layout_irrelevant p rest Hwf Hamp) as H.
   destruct (render (p :: rest)) as [|cur more]; [exact H|]. rewrite H.
-  rewrite (fixed_continuation_layout_irrelevant lead0 (body p) fps stop Hf Hstop). rewrite Hb. reflexivity.
+  assert (Hbp : find_char BANG (body p) = None).
+  { inversion Hwf as [|? ? Hp _]; subst. unfold wf_piece in Hp. apply andb_true_iff in Hp as [Hp _].
+    destruct (clean_no_amp _ Hp) as (_ & H2 & _). exact H2. }
+  rewrite (fixed_continuation_layout_irrelevant lead0 (body p) t0 fps stop Hl Hbp Ht Hf Hstop). rewrite Hb. reflexivity.
 Qed.
